@@ -8,7 +8,7 @@ for d in seeded/*${1:-}*/; do
   [ -f "$d/patch.diff" ] || continue
   if ! git -C /repo apply --check "$PWD/$d/patch.diff" 2>/dev/null; then echo "SKIP $d (does not apply)"; continue; fi
   git -C /repo apply "$PWD/$d/patch.diff"
-  out=$(./check "$id" 2>&1); rc=$?
+  out=$(VERIF_NO_EVIDENCE=1 ./check "$id" 2>&1); rc=$?
   git -C /repo apply -R "$PWD/$d/patch.diff"
   echo "$out" | grep -E "VIOLATION|discharged" | head -4 > "$d/check_output.txt"
   python3 - "$d" "$rc" <<PY
